@@ -25,7 +25,7 @@ PROPS_FILE = "Props/C14.v"
 PROPS_MODULE = "Props.C14"
 RULE = ("every listed operation (filter after/before/between/[mask], slice, sorted, append, move_start_to/move_end_to, deepcopy, item access, "
         "Map.rate, MapSet.rate, the 16 converters, write of osu/Quaver/StepMania/BMS, full_ln, hitsound_copy, sv_normalize, scroll_speed, "
-        "dominant_bpm, Pattern.from_note_lists/group/combinations) on random charts and lists of all five games, singly and in sequences "
+        "dominant_bpm, Pattern.from_note_lists/group/combinations) on random charts and lists of all five games, singly and in sequences (plus degenerate arguments: an appended list with no rows; a result of sorted / append / a boolean filter that IS its argument counts as sharing state) "
         "of 2-4 operations on the same inputs; one observation per call, compared with the store model AND with the verdicts of the static "
         "effect analysis for the reamber functions the call ran; non-trivial = an argument has >= 2 rows in some list")
 ASSUMPTIONS = [
